@@ -318,6 +318,9 @@ def run_epoch(rep, prog):
                     rep.ok(r, sig, {"class": cname, "path": path, "outcome": "out-of-range base (not constrained)"})
                     continue
                 ok = R.lin is not None and lin_eq(R.lin, {"I": -1})
+                if kind == "now":
+                    # DISPATCH_WALLTIME_NOW: "-when" (2 ns after the epoch) and the current wall time are both "already due" for an absolute deadline
+                    ok = ok or (R.lin is not None and lin_eq(R.lin, {("N", "_dispatch_get_nanoseconds"): 1}))
                 rep.require(r, ok, where, fn.name, sig + ":wall", "wall time of class %s decodes to %s instead of -when (path %s)" % (cname, fmt_lin(R.lin), path),
                             sample={"class": cname, "path": path, "outcome": "-when"})
             else:
@@ -328,6 +331,41 @@ def run_epoch(rep, prog):
                             "e.g. dispatch_semaphore_wait with a monotonic deadline - even one already past - sleeps until the year 2262"
                             % (clock, cname, fmt_lin(R.lin) if R.lin is not None else R, path), sample={"class": cname, "path": path, "outcome": "now+timeout"})
     return npaths
+
+
+CLIENT = '''
+#include <dispatch/dispatch.h>
+dispatch_time_t verif_two_time_reads(void) {
+	dispatch_time_t a = dispatch_time(DISPATCH_TIME_NOW, 0);
+	dispatch_time_t b = dispatch_time(DISPATCH_TIME_NOW, 0);
+	return a ^ b;
+}
+dispatch_time_t verif_two_wall_reads(void) {
+	dispatch_time_t a = dispatch_walltime(0, 0);
+	dispatch_time_t b = dispatch_walltime(0, 0);
+	return a ^ b;
+}
+'''
+
+
+def run_client_view(rep, srcdir):
+    """P8: the public declarations do not promise the compiler that dispatch_time / dispatch_walltime are pure: two calls with equal arguments are two clock
+    reads. Decided on a client translation unit compiled against /repo's dispatch/time.h and normalised with the same passes (early-cse included): if the
+    declaration carries __attribute__((const)) / ((pure)) the second call is merged into the first."""
+    r = rep.rule("C12-P8", "client view of dispatch/time.h: dispatch_time(NOW, d) and dispatch_walltime(NULL, d) read the clock on EVERY call - the declarations "
+                 "carry no const / pure attribute that lets the compiler merge or hoist calls with equal arguments", floor=2)
+    facts = build.facts_for_snippet("time_client", CLIENT, srcdir=srcdir, mode="none", unit="time")
+    m = ir.Program({"client": facts})
+    for name, callee in (("verif_two_time_reads", "dispatch_time"), ("verif_two_wall_reads", "dispatch_walltime")):
+        fn = m.fn(name, required=False)
+        if fn is None:
+            rep.unknown(r, "client probe %s was not emitted" % name)
+            continue
+        n = len([c for c in fn.all_insts() if c.op == "call" and c.callee == callee])
+        rep.require(r, n == 2, "dispatch/time.h", callee, "client-calls-merged:%s" % callee,
+                    "a client function that calls %s twice with equal arguments keeps %d call(s) after common-subexpression elimination: the declaration in "
+                    "dispatch/time.h tells the compiler the result depends on the arguments only, so a deadline computed 'now + d' after a pause reuses the stale "
+                    "first reading and polling loops on the clock never terminate" % (callee, n), sample={"fn": callee, "calls_kept": n})
 
 
 def run(rep, tier="quick", srcdir=None, only=None):
@@ -341,9 +379,17 @@ def run(rep, tier="quick", srcdir=None, only=None):
         "_dispatch_time_nano2mach / mach2nano are the identity in this configuration (no host-time scaling on Linux)",
     ]
     n = run_dispatch_time(rep, prog)
-    n += run_walltime(rep, prog)
+    wfn = prog.fn("dispatch_walltime")
+    if any(c.op == "call" and c.callee == "dispatch_time" for c in wfn.all_insts()):
+        # dispatch_walltime delegates to dispatch_time: decide it on the composition (dispatch_time folded into it), not on an opaque call
+        progw = ir.Program(build.facts_for(UNITS, mode="all", srcdir=srcdir, force_inline=("dispatch_time",)))
+        rep.extra["walltime_delegates_to_dispatch_time"] = True
+        n += run_walltime(rep, progw)
+    else:
+        n += run_walltime(rep, prog)
     n += run_timeout(rep, prog)
     n += run_epoch(rep, prog)
+    run_client_view(rep, srcdir)
     rep.extra["paths_enumerated"] = n
     rep.extra["exhaustive"] = True
 
